@@ -268,7 +268,9 @@ def run(ctx):
             ev.setdefault("loopers", [])
             ev.setdefault("anycancel", False)
             ev.setdefault("timed", False)
+            ev.setdefault("unlogged_cancel", False)
     ctx.validate("Trace_AbsChannel", events, shard=400)
+    pinned_test_traces(ctx)
     ctx.notes["model_drift_cases"] = len(drifts)
     ctx.notes["model_drift_samples"] = drifts[:3]
     ctx.notes["replayed_behaviours"] = len(runs) - len(rr)
@@ -279,8 +281,46 @@ def run(ctx):
               % (len(drifts), len(runs) - len(rr)))
 
 
-def _cwd_fix(ctx, mod):
-    pass
+def pinned_test_traces(ctx):
+    """code -> spec on the repository's own channel tests: run tests/grpc/test_stream_stream.py with the env-guarded hook
+    (BETTERPROTO_VERIF_TRACE) and step the recorded call/return events of every channel through AbsChannel.  A corrupted
+    copy of the first trace must be rejected (the binding is real)."""
+    import subprocess
+    path = os.path.join(ctx.work, "pinned_trace.ndjson")
+    env = dict(os.environ, BETTERPROTO_VERIF_TRACE=path, PYTHONPATH=os.path.join(common.REPO, "src"))
+    p = subprocess.run([common.PY, "-m", "pytest", "-q", "-p", "no:cacheprovider", "tests/grpc/test_stream_stream.py"], cwd=common.REPO, env=env,
+                       stdout=subprocess.PIPE, stderr=subprocess.STDOUT, text=True, timeout=600)
+    if not os.path.exists(path):
+        ctx.notes["pinned_test_traces"] = "hook inactive or tests not runnable: " + p.stdout[-200:]
+        return
+    recs = [json.loads(l) for l in open(path)]
+    chans = {}
+    for r_ in recs:
+        chans.setdefault((r_["pid"], r_["ch"]), []).append(r_)
+    runs = []
+    for key, evs in sorted(chans.items()):
+        log = []
+        for e in sorted(evs, key=lambda x: x["seq"]):
+            log.append({"ev": e["ev"], "t": e["t"], "op": e["op"], "items": e.get("items", []), "close": bool(e.get("close", False)),
+                        "closed": e["closed"], "r": e.get("r", ""), "v": e.get("v", 0), "timed": False, "unlogged_cancel": True,
+                        "blocked": [], "finished": [], "loopers": [], "anycancel": False})
+        runs.append({"tasks": sorted({e["t"] for e in evs}), "log": log, "case": {"source": "tests/grpc/test_stream_stream.py", "channel": key[1]}})
+    for run_ in runs:
+        ctx.count_case(("pinned", json.dumps(run_["log"])), True)
+    ctx.validate("Trace_AbsChannel", runs, shard=50)
+    ctx.notes["pinned_test_channels_validated"] = len(runs)
+    ctx.notes["pinned_test_events"] = len(recs)
+    # negative control: corrupt one recorded field
+    import copy as _copy
+    bad = _copy.deepcopy(next(r_ for r_ in runs if any(e["r"] == "item" for e in r_["log"])))
+    next(e for e in bad["log"] if e["r"] == "item")["v"] = 999
+    before = len(ctx.violations)
+    ctx.validate("Trace_AbsChannel", [bad], shard=50)
+    if len(ctx.violations) != before + 1 or ctx.violations[-1][0] != "invented_item":
+        raise MachineryError("negative control: a corrupted pinned-test trace was not rejected as invented_item")
+    ctx.violations.pop()
+    ctx.evaluations -= 1
+    ctx.notes["negative_control"] = "corrupted pinned-test trace rejected (invented_item)"
 
 
 def run_replay(ctx):
@@ -307,5 +347,6 @@ def run_replay(ctx):
         ev.setdefault("loopers", [])
         ev.setdefault("anycancel", False)
         ev.setdefault("timed", False)
+        ev.setdefault("unlogged_cancel", False)
         print(ev)
     ctx.validate("Trace_AbsChannel", [{"tasks": sorted(w.prog), "log": w.log, "case": case}])
